@@ -95,6 +95,9 @@ func Load(o LoadOpts) (*Prog, error) {
 		}
 	}
 	for fn := range ssautil.AllFunctions(p.SSA) {
+		if strings.HasPrefix(fn.Synthetic, "wrapper for") || strings.HasPrefix(fn.Synthetic, "bound method wrapper") || strings.HasPrefix(fn.Synthetic, "thunk for") {
+			continue // compiler-made forwarding stubs: the real call/reference sites are in source functions
+		}
 		if p.InModule(fn) && fn.Blocks != nil {
 			p.Funcs = append(p.Funcs, fn)
 		}
